@@ -22,6 +22,7 @@ CONSTANTS
   Decomps = {FALSE}
   Timeouts = {FALSE, TRUE}
   Shuts = {FALSE, TRUE}
+  MCGz = {}
   Heads = {FALSE, TRUE}
 VIEW MCView
 INVARIANT TypeOK
@@ -32,5 +33,6 @@ INVARIANT BodyBounded
 INVARIANT OneEnd
 INVARIANT PrefixOfSent
 INVARIANT RefusalCloses
+INVARIANT LimitsOnlyRefuse
 PROPERTY Final
 CHECK_DEADLOCK FALSE
